@@ -8,6 +8,13 @@ import (
 
 // GenCfg draws a valid configuration (the two documented constructor
 // preconditions — capacity >= 1, order >= 3 — are respected).
+// GenCfgFloat draws a configuration of the float64 variant (default constructors).
+func GenCfgFloat(t *rapid.T, kind string) Cfg {
+	c := GenCfg(t, kind)
+	c.Elem, c.Cmp = "float", ""
+	return c
+}
+
 func GenCfg(t *rapid.T, kind string) Cfg {
 	c := Cfg{Kind: kind}
 	switch kind {
